@@ -150,6 +150,15 @@ template <integral Int, to_integer_options Options = to_integer_options{}>
         }
     }
 
+    // optional "0x" or "0X" in front of a hexadecimal number, only for the C library functions
+    if constexpr (Options.c_library_syntax) {
+        if (base == Int(16) and length - pos > 2 and str[pos] == '0' and (str[pos + 1] == 'x' or str[pos + 1] == 'X')) {
+            if (parseDigit(static_cast<int>(str[pos + 2])) < base) {
+                pos += 2;
+            }
+        }
+    }
+
     // first digit
     auto value = [&] {
         auto const ch    = static_cast<int>(str[pos++]);
